@@ -394,4 +394,266 @@ theorem struct_update_scalar {h : Heap} (hs : Struct h) (n : Nat) (hn : n < h.si
   | arr ids => simp [SetVal.type, NType.isContainer] at hv
   | obj kv => simp [SetVal.type, NType.isContainer] at hv
 
+
+/-- a change of fields the invariant does not look at (cache, b0) -/
+theorem struct_modify_irrelevant {h : Heap} (hs : Struct h) (n : Id) (f : NodeRec → NodeRec)
+    (hf : ∀ r, (f r).parent = r.parent ∧ (f r).children = r.children ∧ (f r).type = r.type ∧ (f r).key = r.key ∧
+      (f r).index = r.index ∧ (f r).data = r.data ∧ (f r).b1 = r.b1 ∧ (f r).dirty = r.dirty) : Struct (h.modify n f) := by
+  have hfld : ∀ m : Nat, ((h.modify n f).get m).parent = (h.get m).parent ∧ ((h.modify n f).get m).children = (h.get m).children ∧
+      ((h.modify n f).get m).type = (h.get m).type ∧ ((h.modify n f).get m).key = (h.get m).key ∧
+      ((h.modify n f).get m).index = (h.get m).index ∧ ((h.modify n f).get m).data = (h.get m).data ∧
+      ((h.modify n f).get m).b1 = (h.get m).b1 ∧ ((h.modify n f).get m).dirty = (h.get m).dirty := by
+    intro m
+    rw [get_modify]
+    split
+    · rename_i hc; rw [hc.1]; exact hf _
+    · exact ⟨rfl, rfl, rfl, rfl, rfl, rfl, rfl, rfl⟩
+  have hcm : ∀ m : Nat, (h.modify n f).childMap m = h.childMap m := by
+    intro m; unfold childMap; rw [(hfld m).2.1]
+  intro p hp
+  rw [size_modify] at hp
+  have ok := hs p hp
+  obtain ⟨f1, f2, f3, f4, f5, f6, f7, f8⟩ := hfld p
+  refine ⟨?_, by rw [hcm]; exact ok.nodup, by rw [hcm, f3]; exact ok.dense, by rw [hcm, f3, f2]; exact ok.shape, ?_, ?_⟩
+  · intro kc hkc
+    rw [hcm] at hkc
+    obtain ⟨a, b, c, e⟩ := ok.kids kc hkc
+    obtain ⟨g1, _, _, g4, g5, _⟩ := hfld kc.2
+    refine ⟨by rw [size_modify]; exact a, b, by rw [g1]; exact c, ?_⟩
+    unfold PosOK at e ⊢; rw [f3, g4, g5]; exact e
+  · intro q hq
+    rw [f1] at hq
+    obtain ⟨a, b, c, e⟩ := ok.par q hq
+    obtain ⟨_, _, g3, _, _, _, _, g8⟩ := hfld q
+    exact ⟨by rw [size_modify]; exact a, by rw [g3]; exact b, by rw [hcm]; exact c, by rw [f8, g8]; exact e⟩
+  · intro hcl
+    rw [f8] at hcl
+    obtain ⟨a, b, c⟩ := ok.clean hcl
+    refine ⟨by rw [f6]; exact a, by rw [f7]; exact b, ?_⟩
+    intro kc hkc
+    rw [hcm] at hkc
+    rw [(hfld kc.2).2.2.2.2.2.2.2]; exact c kc hkc
+
+/-! ### removing a member of an object -/
+
+theorem keys_erase (m : ChildMap) (k : Bytes) : (m.erase k).keys = m.keys.filter (fun x => !(x == k)) := by
+  unfold ChildMap.erase ChildMap.keys
+  induction m with
+  | nil => rfl
+  | cons p ps ih =>
+    simp only [List.filter_cons, List.map_cons]
+    by_cases hp : (p.1 == k) = true
+    · simp [hp, ih]
+    · simp [hp, ih]
+
+theorem mem_erase {m : ChildMap} {k : Bytes} {kc : Bytes × Id} (h : kc ∈ m.erase k) : kc ∈ m ∧ kc.1 ≠ k := by
+  unfold ChildMap.erase at h
+  obtain ⟨a, b⟩ := List.mem_filter.mp h
+  exact ⟨a, by simpa using b⟩
+
+theorem mem_erase_of {m : ChildMap} {k : Bytes} {kc : Bytes × Id} (h : kc ∈ m) (hk : kc.1 ≠ k) : kc ∈ m.erase k := by
+  unfold ChildMap.erase
+  exact List.mem_filter.mpr ⟨h, by simpa using hk⟩
+
+theorem keys_unique : ∀ (m : ChildMap), m.keys.Nodup → ∀ a b : Bytes × Id, a ∈ m → b ∈ m → a.1 = b.1 → a = b
+  | [], _, a, _, ha, _, _ => by cases ha
+  | p :: ps, hn, a, b, ha, hb, hab => by
+    simp only [ChildMap.keys, List.map_cons, List.nodup_cons] at hn
+    rcases List.mem_cons.mp ha with rfl | ha' <;> rcases List.mem_cons.mp hb with rfl | hb'
+    · rfl
+    · exact absurd (List.mem_map.mpr ⟨b, hb', hab.symm⟩) hn.1
+    · exact absurd (List.mem_map.mpr ⟨a, ha', hab⟩) hn.1
+    · exact keys_unique ps hn.2 a b ha' hb' hab
+
+/-- `remove()` of a member of an object, after `mark()` and the cache reset -/
+def detachObj (h : Heap) (n value : Id) (k : Bytes) : Heap :=
+  (h.modify n (fun r => { r with children := r.children.map (·.erase k) })).modify value (fun r => { r with parent := none })
+
+theorem struct_detachObj {h : Heap} (hs : Struct h) (n value : Nat) (hn : n < h.size) (hv : value < h.size)
+    (hpar : (h.get value).parent = some n) (hobj : (h.get n).type ≠ .array) (k : Bytes) (hk : (h.get value).key = some k)
+    (hd : (h.get n).dirty = true) : Struct (detachObj h n value k) := by
+  have okn := hs n hn
+  have okv := hs value hv
+  have hvn : value ≠ n := by
+    intro e; subst e
+    obtain ⟨_, _, c, _⟩ := okv.par value hpar
+    obtain ⟨kc, hkc, he⟩ := List.mem_map.mp c
+    have := (okv.kids kc hkc).2.1
+    exact this he
+  -- the entry of `value` in n's map is (k, value)
+  obtain ⟨_, _, hmem, _⟩ := okv.par n hpar
+  obtain ⟨kc0, hkc0, he0⟩ := List.mem_map.mp hmem
+  have hk0 : kc0.1 = k := by
+    have := (okn.kids kc0 hkc0).2.2.2
+    unfold PosOK at this
+    rw [if_neg hobj, he0, hk] at this
+    exact (Option.some.inj this).symm
+  have huniq : ∀ kc ∈ h.childMap n, kc.1 = k → kc.2 = value := by
+    intro kc hkc hkk
+    have := keys_unique _ okn.nodup kc kc0 hkc hkc0 (by rw [hkk, hk0])
+    rw [this]; exact he0
+  have huniq2 : ∀ kc ∈ h.childMap n, kc.2 = value → kc.1 = k := by
+    intro kc hkc hkv
+    have := (okn.kids kc hkc).2.2.2
+    unfold PosOK at this
+    rw [if_neg hobj, hkv, hk] at this
+    exact (Option.some.inj this).symm
+  -- records after the two writes
+  have hget : ∀ m : Nat, (detachObj h n value k).get m =
+      if m = value then { h.get value with parent := none }
+      else if m = n then { h.get n with children := (h.get n).children.map (·.erase k) } else h.get m := by
+    intro m
+    unfold detachObj
+    by_cases hmv : m = value
+    · subst hmv
+      rw [get_modify]; simp only [size_modify, hv, and_self, if_true]
+      rw [get_modify_other _ _ _ _ hvn]
+    · rw [get_modify_other _ _ _ _ hmv]
+      simp only [hmv, if_false]
+      by_cases hmn : m = n
+      · subst hmn; rw [get_modify]; simp [hn]
+      · rw [get_modify_other _ _ _ _ hmn]; simp [hmn]
+  have hsize : (detachObj h n value k).size = h.size := by simp [detachObj]
+  have hcmn : (detachObj h n value k).childMap n = (h.childMap n).erase k := by
+    unfold childMap
+    rw [hget n]; simp only [Ne.symm hvn, if_false, if_true]
+    cases (h.get n).children <;> simp [ChildMap.erase]
+  have hcm : ∀ m : Nat, m ≠ n → (detachObj h n value k).childMap m = h.childMap m := by
+    intro m hm
+    unfold childMap
+    rw [hget m]
+    split
+    · rename_i e; rw [e]
+    · simp [hm]
+  have hfld : ∀ m : Nat, ((detachObj h n value k).get m).type = (h.get m).type ∧ ((detachObj h n value k).get m).dirty = (h.get m).dirty ∧
+      ((detachObj h n value k).get m).key = (h.get m).key ∧ ((detachObj h n value k).get m).index = (h.get m).index ∧
+      ((detachObj h n value k).get m).data = (h.get m).data ∧ ((detachObj h n value k).get m).b1 = (h.get m).b1 ∧
+      (m ≠ value → ((detachObj h n value k).get m).parent = (h.get m).parent) := by
+    intro m
+    rw [hget m]
+    split
+    · rename_i e; subst e; simp
+    · split
+      · rename_i e; subst e; simp
+      · simp
+  have hparv : ((detachObj h n value k).get value).parent = none := by rw [hget value]; simp
+  intro p hp
+  rw [hsize] at hp
+  have ok := hs p hp
+  obtain ⟨f1, f2, f3, f4, f5, f6, f7⟩ := hfld p
+  by_cases hpn : p = n
+  · subst hpn
+    refine ⟨?_, ?_, ?_, ?_, ?_, ?_⟩
+    · intro kc hkc
+      rw [hcmn] at hkc
+      obtain ⟨hin, hne⟩ := mem_erase hkc
+      obtain ⟨a, b, c, e⟩ := ok.kids kc hin
+      have hkv : (kc.2 : Nat) ≠ value := fun e' => hne (huniq2 kc hin e')
+      obtain ⟨g1, _, g3, g4, _, _, g7⟩ := hfld kc.2
+      refine ⟨by rw [hsize]; exact a, b, by rw [g7 hkv]; exact c, ?_⟩
+      unfold PosOK at e ⊢; rw [f1, g3, g4]; exact e
+    · rw [hcmn, keys_erase]; exact ok.nodup.sublist List.filter_sublist
+    · intro hta; rw [f1] at hta; exact absurd hta hobj
+    · rw [f1]
+      have := ok.shape
+      by_cases hc : (h.get p).type.isContainer = true
+      · simp only [hc, if_true] at this ⊢
+        rw [hget p]; simp only [Ne.symm hvn, if_false, if_true]
+        cases hch : (h.get p).children with
+        | none => rw [hch] at this; cases this
+        | some m => rfl
+      · simp only [hc, Bool.false_eq_true, if_false] at this ⊢
+        rw [hcmn, this]; rfl
+    · intro q hq
+      rw [f7 (Ne.symm hvn)] at hq
+      obtain ⟨a, b, c, e⟩ := ok.par q hq
+      have hqp : q ≠ p := by
+        intro e'; subst e'
+        obtain ⟨kc, hkc, he⟩ := List.mem_map.mp c
+        exact (ok.kids kc hkc).2.1 he
+      obtain ⟨g1, g2, _⟩ := hfld q
+      exact ⟨by rw [hsize]; exact a, by rw [g1]; exact b, by rw [hcm q hqp]; exact c, by rw [f2, g2]; exact e⟩
+    · intro hcl; rw [f2, hd] at hcl; cases hcl
+  · refine ⟨?_, by rw [hcm p hpn]; exact ok.nodup, by rw [hcm p hpn, f1]; exact ok.dense, ?_, ?_, ?_⟩
+    · intro kc hkc
+      rw [hcm p hpn] at hkc
+      obtain ⟨a, b, c, e⟩ := ok.kids kc hkc
+      have hkv : (kc.2 : Nat) ≠ value := by
+        intro e'; rw [e'] at c; rw [hpar] at c; exact hpn (Option.some.inj c).symm
+      obtain ⟨g1, _, g3, g4, _, _, g7⟩ := hfld kc.2
+      refine ⟨by rw [hsize]; exact a, b, by rw [g7 hkv]; exact c, ?_⟩
+      unfold PosOK at e ⊢; rw [f1, g3, g4]; exact e
+    · rw [hcm p hpn, f1]
+      have := ok.shape
+      by_cases hc : (h.get p).type.isContainer = true
+      · simp only [hc, if_true] at this ⊢
+        rw [hget p]
+        split
+        · rename_i e; subst e; exact this
+        · first | exact this | (simp only [hpn, if_false]; exact this) | (split <;> first | exact this | (rename_i e2; exact absurd e2 hpn))
+      · simp only [hc, Bool.false_eq_true, if_false] at this ⊢; exact this
+    · intro q hq
+      by_cases hpv : p = value
+      · subst hpv; rw [hparv] at hq; cases hq
+      · rw [f7 hpv] at hq
+        obtain ⟨a, b, c, e⟩ := ok.par q hq
+        obtain ⟨g1, g2, _⟩ := hfld q
+        refine ⟨by rw [hsize]; exact a, by rw [g1]; exact b, ?_, by rw [f2, g2]; exact e⟩
+        by_cases hqn : q = n
+        · subst hqn
+          rw [hcmn]
+          obtain ⟨kc, hkc, he⟩ := List.mem_map.mp c
+          have hne : kc.1 ≠ k := fun e' => hpv ((huniq kc hkc e').symm ▸ he.symm ▸ rfl)
+          exact List.mem_map.mpr ⟨kc, mem_erase_of hkc hne, he⟩
+        · rw [hcm q hqn]; exact c
+    · intro hcl
+      rw [f2] at hcl
+      obtain ⟨a, b, c⟩ := ok.clean hcl
+      refine ⟨by rw [f5]; exact a, by rw [f6]; exact b, ?_⟩
+      intro kc hkc
+      rw [hcm p hpn] at hkc
+      rw [(hfld kc.2).2.1]; exact c kc hkc
+
+/-- **deleting a member of an object preserves the invariant** (`remove`, hence DeleteNode / DeleteKey / PopKey / Delete on
+a member) -/
+theorem struct_remove_object {h : Heap} (hs : Struct h) (n value : Nat) (hv : value < h.size)
+    (hpar : (h.get value).parent = some n) (hobj : (h.get n).type = .object) :
+    Struct (h.remove n value).1 ∧ (h.remove n value).2 = .ok () := by
+  have okv := hs value hv
+  obtain ⟨hn, hcont, hmem, _⟩ := okv.par n hpar
+  obtain ⟨kc0, hkc0, he0⟩ := List.mem_map.mp hmem
+  have hkey : (h.get value).key = some kc0.1 := by
+    have := ((hs n hn).kids kc0 hkc0).2.2.2
+    unfold PosOK at this
+    rw [hobj, he0] at this
+    simpa using this
+  have hm := hs.mark n hn
+  have hdn : ((h.mark n).get n).dirty = true := mark_self_dirty h n hn
+  obtain ⟨m1, _, m3, m4, _⟩ := hm.2.fields value
+  obtain ⟨_, _, n3, _⟩ := hm.2.fields n
+  -- the heap after mark and the cache reset
+  have hs2 : Struct ((h.mark n).modify n (fun r => { r with cache := none })) :=
+    struct_modify_irrelevant hm.1 n _ (fun r => ⟨rfl, rfl, rfl, rfl, rfl, rfl, rfl, rfl⟩)
+  have g : ∀ m : Nat, (((h.mark n).modify n (fun r => { r with cache := none })).get m).parent = ((h.mark n).get m).parent ∧
+      (((h.mark n).modify n (fun r => { r with cache := none })).get m).type = ((h.mark n).get m).type ∧
+      (((h.mark n).modify n (fun r => { r with cache := none })).get m).key = ((h.mark n).get m).key ∧
+      (((h.mark n).modify n (fun r => { r with cache := none })).get m).dirty = ((h.mark n).get m).dirty ∧
+      (((h.mark n).modify n (fun r => { r with cache := none })).get m).index = ((h.mark n).get m).index := by
+    intro m; rw [get_modify]; split
+    · rename_i hc; rw [hc.1]; exact ⟨rfl, rfl, rfl, rfl, rfl⟩
+    · exact ⟨rfl, rfl, rfl, rfl, rfl⟩
+  have hsz2 : ((h.mark n).modify n (fun r => { r with cache := none })).size = h.size := by simp [hm.2.1]
+  have key := struct_detachObj hs2 n value (by rw [hsz2]; exact hn) (by rw [hsz2]; exact hv)
+    (by rw [(g value).1, m1]; exact hpar) (by rw [(g n).2.1, n3, hobj]; decide) kc0.1 (by rw [(g value).2.2.1, m4]; exact hkey)
+    (by rw [(g n).2.2.2.1]; exact hdn)
+  have hic : h.isContainer n = true := by simpa [isContainer, typeOf] using hcont
+  have hia : ((h.mark n).modify n (fun r => { r with cache := none })).isArray n = false := by
+    simp [isArray, typeOf, (g n).2.1, n3, hobj]
+  have hpe : ((h.get value).parent != some n) = false := by simp [hpar]
+  have e : h.remove n value = (detachObj ((h.mark n).modify n (fun r => { r with cache := none })) n value kc0.1, .ok ()) := by
+    unfold Heap.remove
+    simp only [hic, Bool.not_true, Bool.false_eq_true, if_false, hpe, hia, (g value).2.2.1, m4, hkey]
+    rfl
+  rw [e]; exact ⟨key, rfl⟩
+
 end Ajson.Proofs
